@@ -47,7 +47,7 @@ fn generators(cfg: &Cfg) -> Vec<Generator> {
     let fixtures = fixtures().len() as u64;
     vec![
         Generator { name: "fixtures", total: cfg.tier.pick(fixtures.min(28), fixtures), run: run_fixture, case_cpu_limit_s: 600 },
-        Generator { name: "generated", total: cfg.tier.pick(64, 1_200), run: run_generated, case_cpu_limit_s: 600 },
+        Generator { name: "generated", total: cfg.tier.pick(72, 1_350), run: run_generated, case_cpu_limit_s: 600 },
     ]
 }
 
@@ -186,7 +186,7 @@ fn run_generated(cfg: &Cfg, index: u64, stats: &mut Stats) {
     let mut rng = Rng::for_case(cfg.seed, "C16/generated", index);
     let program = e1::generate::generate(cfg.seed, "C16", index);
     let style = e1::print::Style::plain();
-    let kind = index % 8;
+    let kind = index % 9;
     let prelude = crate::prelude::MiniPrelude::core().text();
     let (text, tag) = match kind {
         | 4 => {
@@ -229,6 +229,17 @@ fn run_generated(cfg: &Cfg, index: u64, stats: &mut Stats) {
             }
             body.push_str("! exit 0\nend\n");
             (format!("{prelude}{body}"), "rejected-several-missing-arms")
+        }
+        | 8 => {
+            // several recursive components that each go through a parameter: which one is blamed?
+            let k = 2 + rng.below(4);
+            let mut lines: Vec<String> = Vec::new();
+            for i in 0..k {
+                let (x, a) = (format!("{}{}", ["x", "y", "zed", "w", "n"][i % 5], i), format!("{}{}", ["A", "B", "Cee", "D", "E"][i % 5], i));
+                lines.push(format!("param ({x} : {a}) that\ndef {a} = {x} that"));
+            }
+            rng.shuffle(&mut lines);
+            (format!("{prelude}let t = {{ begin\n{}\nret 0\nend }} in\n! exit 0\n", lines.join("\n")), "rejected-several-recursive-parameters")
         }
         | 7 => {
             // a random parse-valid term that is ill-formed in some earlier phase (directive, desugaring, name resolution)
